@@ -26,6 +26,8 @@ def val_py(v):
         return v[1]
     if t == 'l':
         return [val_py(x) for x in v[1]]
+    if t == 'q':
+        return v[1] / float(v[2])
     raise ValueError(v)
 
 
@@ -107,11 +109,17 @@ def expr(e, case, sp, lang='py'):
         return '(NR % 2 == 1)'
     if k == 'true':
         return 'True' if py else 'true'
+    if k in ('bmin', 'bmax'):
+        return '%s(%s, %s)' % ('min' if k == 'bmin' else 'max', X(1), X(2)) if py else 'Math.%s(%s, %s)' % ('min' if k == 'bmin' else 'max', X(1), X(2))
+    if k == 'bmaxl':
+        return 'max([%s, %s])' % (X(1), X(2))
+    if k == 'bsum':
+        return 'sum([%s, %s])' % (X(1), X(2))
     if k == 'poison':
         bad = pystr(e[2])
         if py:
             return '(lambda v: v if v != %s else [][0])(%s)' % (bad, X(1))
-        return '((v) => { if (v === %s) throw new Error("poison"); return v; })(%s)' % (bad, X(1))
+        return '(function(v) { if (v === %s) throw new Error("poison"); return v; })(%s)' % (bad, X(1))
     raise ValueError(e)
 
 
@@ -443,7 +451,7 @@ def judge(case, obs, query_text, check_header=True):
             sigs.append(dict(base, what='result rows', got=obs['rows'], want=exp['out']))
         if check_header:
             if exp['hashdr']:
-                if obs['hdr'] != list(exp['hdr']):
+                if obs['hdr'] != list(exp['hdr']) and not (obs.get('empty_header_is_none') and not exp['hdr'] and obs['hdr'] is None):
                     sigs.append(dict(base, what='header', got=obs['hdr'], want=exp['hdr'], distinct=case['q']['distinct']))
             elif obs['hdr'] is not None:
                 sigs.append(dict(base, what='header present', got=obs['hdr']))
@@ -459,3 +467,51 @@ def judge(case, obs, query_text, check_header=True):
         elif want_err['nr'] > 0 and want_err['fld'] != 0 and got_err['fld'] != want_err['fld']:
             sigs.append(dict(base, what='error field', got=got_err['fld'], want=want_err['fld'], msg=got_err['msg']))
     return sigs
+
+
+# ------------------------------------------------------------------ the JavaScript port (C19, C06)
+
+JS_ERR = {'RbqlRuntimeError': 'runtime', 'RbqlParsingError': 'parsing', 'RbqlIOHandlingError': 'io', 'SyntaxError': 'syntax'}
+
+
+def val_js(v):
+    return val_py(v)
+
+
+def js_request(case, query_text):
+    A = table_py(case['A'])
+    B = table_py(case['B'])
+    req = {'op': 'query_table', 'query': query_text, 'input': A}
+    if case['q']['join'] != 'none':
+        req['join'] = B
+    if case['hasHdr']:
+        req['input_header'] = list(case['hdrA'])
+        if case['q']['join'] != 'none':
+            req['join_header'] = list(case['hdrB'])
+    iofault = case['q'].get('iofault', '')
+    if iofault == 'hdr_len' and case['hasHdr']:
+        req['input_header'] = req['input_header'] + ['extra']
+    if iofault == 'join_hdr_missing':
+        req.pop('join_header', None)
+    return req
+
+
+def js_observation(resp):
+    obs = {'err': None, 'rows': resp.get('out', []), 'hdr': None, 'empty_header_is_none': True, 'alias': bool(resp.get('alias')), 'src_changed': not resp.get('src_intact', True)}
+    if resp.get('error'):
+        e = resp['error']
+        msg = e['msg']
+        m = _rec_no.search(msg)
+        fld_ = 0
+        mm = _afield.search(msg)
+        if mm:
+            fld_ = int(mm.group(1))
+        else:
+            mm = _bindex.search(msg)
+            if mm and 'B' in msg:
+                fld_ = -int(mm.group(1))
+        obs['err'] = {'cls': JS_ERR.get(e['cls'], e['cls']), 'nr': int(m.group(1)) if m else 0, 'fld': fld_, 'msg': msg[:200]}
+    else:
+        hdr = resp.get('header')
+        obs['hdr'] = hdr if hdr else None
+    return obs
